@@ -122,6 +122,8 @@ static void run_grid(int d, const GridSpec& gs, int hist, const TimeCfg& tc, boo
         if (!(e <= 16 * ref::EPS * (maxabs(rho[i][ir]) + maxabs(rho[i + 1][ir])))) violation("GetIntermediateState:not-convex-combination:d=" + std::to_string(d), xctx + ",\"got\":" + jarr(comps(is)) + ",\"want\":" + jarr(rx) + "}");
         // the returned state is an object of its own: using it in place does not show in the solver or in the next call
         is *= -2.5; is[0] = 99; { SU_vector consumed = s.GetIntermediateState(ir, x) * 0.5; (void)consumed; }
+        { SU_vector held = s.GetIntermediateState(ir, x); SU_vector other = s.GetIntermediateState(ir, xs[(&x - &xs[0] + 3) % xs.size()]); SU_vector third = s.GetIntermediateState((ir + 1) % nrho, x);
+          if (!(maxdiff(comps(held), rx) <= 16 * ref::EPS * (maxabs(rho[i][ir]) + maxabs(rho[i + 1][ir])))) violation("GetIntermediateState:earlier-result-changed-by-a-later-call:d=" + std::to_string(d), xctx + "}"); (void)other; (void)third; }
         SU_vector is2 = s.GetIntermediateState(ir, x);
         if (!(maxdiff(comps(is2), rx) <= 16 * ref::EPS * (maxabs(rho[i][ir]) + maxabs(rho[i + 1][ir]))) || !(s.getrho(i, ir) == rho[i][ir]) || !(s.getrho(i + 1, ir) == rho[i + 1][ir])) violation("GetIntermediateState:result-shares-state:d=" + std::to_string(d), xctx + "}");
       } catch (const std::exception& ex) { violation("GetIntermediateState:inside-rejected", xctx + "}"); }
